@@ -1213,7 +1213,7 @@ fn gen_stmt(rng: &mut Rng) -> (String, Vec<(usize, usize)>) {
         }};
     }
     let d = 1 + rng.below(3) as u32;
-    match rng.below(27) {
+    match rng.below(33) {
         0 => { t!("{% if "); e!(gen(rng, d)); t!(" %}yes{% else %}no{% endif %}"); }
         1 => { t!("{% if "); e!(gen(rng, d)); t!(" %}a{% elif "); e!(gen(rng, d)); t!(" %}b{% else %}c{% endif %}"); }
         2 => { t!("{% for x in "); e!(gen_container(rng, d)); t!(" %}[{{ x }}]{% else %}empty{% endfor %}"); }
@@ -1243,7 +1243,27 @@ fn gen_stmt(rng: &mut Rng) -> (String, Vec<(usize, usize)>) {
         23 => { t!("{% if "); e!(gen(rng, d)); t!(" %}{% set x = "); e!(gen_lit(rng)); t!(" %}{% endif %}{{ x }}"); }
         24 => { t!("{% for x in "); e!(gen_container(rng, d)); t!(" %}{{ loop.cycle("); e!(gen_lit(rng)); t!(", "); e!(gen_lit(rng)); t!(") }}{% endfor %}"); }
         25 => { t!("{{ "); e!(gen_container(rng, d)); t!("|sort|join(\",\") }}{{ "); e!(gen_container(rng, d)); t!("|unique|list }}{{ "); e!(gen_container(rng, d)); t!("|map(\"string\")|list }}"); }
-        _ => { t!("{% macro wrap() %}<{{ caller() }}>{% endmacro %}{% call(z="); e!(gen_lit(rng)); t!(") wrap() %}{{ z }}{% endcall %}"); }
+        26 => { t!("{% macro wrap() %}<{{ caller() }}>{% endmacro %}{% call(z="); e!(gen_lit(rng)); t!(") wrap() %}{{ z }}{% endcall %}"); }
+        // call blocks whose call carries keyword arguments: the generated `caller` macro has to be added
+        // to them at run time, also when every keyword value is a literal
+        27 => {
+            t!("{% macro dlg(title=\"d\", n=0) %}<{{ title }}|{{ n }}|{{ caller() }}>{% endmacro %}{% call dlg(title=");
+            e!(gen_lit(rng));
+            if rng.chance(1, 2) { t!(", n="); e!(gen_lit(rng)); }
+            t!(") %}body{{ "); e!(gen_lit(rng)); t!(" }}{% endcall %}");
+        }
+        28 => {
+            t!("{% macro dlg(p, title=\"d\") %}<{{ p }}|{{ title }}|{{ caller("); e!(gen_lit(rng)); t!(") }}>{% endmacro %}{% call(x) dlg(");
+            e!(gen(rng, d.min(2))); t!(", title="); e!(if rng.chance(2, 3) { gen_lit(rng) } else { gen(rng, d.min(2)) });
+            t!(") %}[{{ x }}]{% endcall %}");
+        }
+        29 => {
+            // a macro that does not use `caller` must reject a call block, with literal and with variable keyword values alike
+            t!("{% macro plain(a=1) %}({{ a }}){% endmacro %}{% call plain(a="); e!(gen_lit(rng)); t!(") %}body{% endcall %}");
+        }
+        30 => { t!("{% call kw(ka="); e!(gen_lit(rng)); t!(", kb="); e!(gen_lit(rng)); t!(") %}body{% endcall %}|{% do kw(ka="); e!(gen_lit(rng)); t!(") %}done"); }
+        31 => { t!("{% filter kwf(ka="); e!(gen_lit(rng)); t!(") %}body{{ "); e!(gen_lit(rng)); t!(" }}{% endfilter %}"); }
+        _ => { t!("{% set x | kwf(ka="); e!(gen_lit(rng)); t!(", kb="); e!(gen(rng, d.min(1))); t!(") %}body{% endset %}{{ x }}|{% set y | default("); e!(gen_lit(rng)); t!(") %}{% endset %}{{ y }}"); }
     }
     (o, sp)
 }
@@ -1418,6 +1438,12 @@ const STMT_SEEDS: &[&str] = &[
     "{{ [`3`, `1`, `2`]|sort }}", "{{ `[3, 1, 2]`|sort|join(`\"-\"`) }}", "{{ [`1`, `1.0`, `true`]|unique|list }}", "{% if u %}a{% else %}b{% endif %}{{ `1` if u }}",
     "{{ `\"a\"` if `0` }}|{{ (`\"a\"` if `0`) is defined }}", "{% set x %}{{ `1.5` }}{% endset %}{{ x }}", "{% filter upper %}{{ `\"abc\"` ~ `1` }}{% endfilter %}",
     "{% macro wrap() %}<{{ caller() }}>{% endmacro %}{% call(z=`5`) wrap() %}{{ z }}{% endcall %}",
+    "{% macro dlg(title=\"d\") %}<{{ title }}|{{ caller() }}>{% endmacro %}{% call dlg(title=`\"Hello\"`) %}body{% endcall %}",
+    "{% macro dlg(title=\"d\", n=0) %}<{{ title }}{{ n }}|{{ caller() }}>{% endmacro %}{% call dlg(title=`\"Hello\"`, n=`2`) %}body{% endcall %}",
+    "{% macro dlg(p, title=\"d\") %}<{{ p }}{{ title }}|{{ caller(`1`) }}>{% endmacro %}{% call(x) dlg(`0`, title=`none`) %}[{{ x }}]{% endcall %}",
+    "{% macro plain(a=1) %}({{ a }}){% endmacro %}{% call plain(a=`2`) %}body{% endcall %}", "{% macro plain(a=1) %}({{ a }}){% endmacro %}{% call plain(`2`) %}body{% endcall %}",
+    "{% call kw(ka=`1`) %}body{% endcall %}", "{% call kw(ka=`1`, caller=`2`) %}body{% endcall %}", "{% call kw(`1`) %}body{% endcall %}", "{% call kw(ka=-`1`) %}body{% endcall %}",
+    "{% do kw(ka=`1`, kb=`\"x\"`) %}done", "{% filter kwf(ka=`1`) %}body{% endfilter %}", "{% set x | kwf(ka=`1`, kb=`2`) %}body{% endset %}{{ x }}",
     "{% extends `\"base.txt\"` %}{% if `false` %}{% block b %}child{% endblock %}{% endif %}",
     "{% extends `\"base.txt\"` %}{% if `true` %}{% block b %}child{% endblock %}{% endif %}",
     "{% if `true` %}A{% else %}{% block b %}B{% endblock %}{% endif %}|{{ self.b() }}",
